@@ -565,7 +565,7 @@ PROPS["C04"] = {
     "rule": "seeded programs reading outputs in row entries, lets, loop bounds and while conditions; drivers whose answers depend on call index AND on the inputs received (echo), "
             "C rows interleaved so that a refresh on a write-only call would show; variables shadowing output names; Z/X returned for read outputs; layouts that omit a read output; "
             "non-trivial = at least 2 rows or an error",
-    "proved": "ctx outputs = answer of the constructor call initially; replaced exactly by the answer of each checked row's call; untouched by mid-clock writes, by the statement "
+    "proved": "run level through errors (OutputsRunProof): in every reachable state the values expressions read are the answer to the last RW call of the log that the driver answered, accepted or refused; failed and write-only calls do not refresh it; ctx outputs = answer of the constructor call initially; replaced exactly by the answer of each checked row's call; untouched by mid-clock writes, by the statement "
               "iterator and by row preparation; variables take precedence in ctx_get; reading Z/X is an evaluation error",
     "validated_only": "that the crate's EvalContext / DataRowIterator behave as the model (differential runs with feedback drivers)",
     "assumptions": ["Iter.v / Eval.v model the crate (checked by the correspondence runs of this check)"],
@@ -601,7 +601,7 @@ PROPS["C06"] = {
     "oracles": [signal_order_oracle, no_panic_oracle],
     "rule": "seeded signal lists (inputs, outputs, bidirectional interleaved, widths 1..64, defaults incl. Z) against headers that are shuffled strict subsets of the possible columns "
             "(bidirectional pairs split or partial); projection = signal identity, order, value, changed flag of every entry and the vectors received by the driver; non-trivial = at least 2 rows",
-    "proved": "for every parsed test, signal list and row: generate_input_entries / generate_expected_entries / default vector = the by-name specification (ByNameSpec) built from the header names only; "
+    "proved": "run level through errors (VectorProof): every vector of the call log complete and in order, every checked row complete, unflagged entries equal the previous vector handed to the driver for any two consecutive calls, omitted signals at default in every call; for every parsed test, signal list and row: generate_input_entries / generate_expected_entries / default vector = the by-name specification (ByNameSpec) built from the header names only; "
               "one entry per input-capable (resp. output-capable or virtual) signal in signal-list order; changed=false implies same value as in the previous vector; omitted inputs at default, never changed",
     "validated_only": "that build_indices / generate_*_entries / check_changed_entries of the crate behave as Bind.v / Iter.v",
     "assumptions": ["Bind.v / Iter.v model the crate (checked by the correspondence runs of this check)"],
@@ -1549,7 +1549,7 @@ PROPS["C20"] = {
             "with random letter case): both go through the implementation and are compared pairwise (same verdict, same rows except line) and each against the model; (2) token-boundary stress texts "
             "(0x1F next to identifiers, << vs < <, != vs ! =, keywords as prefixes of identifiers, CR before LF, non-ASCII digits in identifiers) lexed by the crate's REAL logos lexers through the verif-hooks "
             "functions and by the model scanner, token by token with spans",
-    "proved": "token sequence (kinds and texts) invariant under: any change of a non-empty blank run, insertion of blank space at a separator / before a comment / at text end, appending a comment to a line; "
+    "proved": "canonical layout: Show.v models the crate's Display (compared: PROG lines) and every accepted text's header + Display of its statements parses back to the same statements (ShowRoundTrip.projection); token sequence (kinds and texts) invariant under: any change of a non-empty blank run, insertion of blank space at a separator / before a comment / at text end, appending a comment to a line; "
               "the value of a literal depends only on its digits (radix spelling theorems); (with proofs/ParserLayoutProof.v when present in props/C20.v) the parser's result depends on kinds and texts only; "
               "the scanner is the longest-match lexer of the rule table COMPUTED from the source's regexes (LexSpec.parse_re), keywords and punctuation: every lexeme is matched by its kind's rule, no rule matches a longer prefix, "
               "Error only where nothing matches, keyword over Ident except for the one documented quirk; header scanner likewise (rules disjoint, total)",
